@@ -332,6 +332,16 @@ def execute(sc, ctx) -> None:
             res = check_survivor(name, content, fin, base, mkp, ctx)
             ctx.log("survivor", point, base, len(content), res)
 
+    def crash_states(at_crash, after, point, mkp, check_after=True):
+        """A real process death leaves the disk as it was at the crash instant; the simulated one also
+        unwinds Python frames (ExitStack, __exit__, finalisers).  Both states must be valid prefixes;
+        a difference between them is recorded (it means unwinding wrote), not judged by itself."""
+        survivors_ok(at_crash, point + "@crash-instant", mkp)
+        if at_crash != after:
+            ctx.observations["unwinding-changed-files"] += 1
+            if check_after:
+                survivors_ok(after, point + "@after-unwinding", mkp)
+
     nbits_out_cache = {}
     for k in range(K):
         kind, rel, size_before, grew = writes[k]
@@ -342,9 +352,7 @@ def execute(sc, ctx) -> None:
         ctx.probe("W1-points")
         if not fired or not isinstance(raised, SimCrash):
             raise mkp("crash-swallowed", f"fired={fired} raised={raised!r}")
-        if at_crash != after:
-            raise mkp("unwinding-wrote-more", "files changed between the crash instant and the end of exception unwinding")
-        survivors_ok(after, point, mkp)
+        crash_states(at_crash, after, point, mkp)
         if len(final_by_name) > 1 and len(after) < len(final_by_name) or (len(final_by_name) > 1 and k >= 1):
             ctx.probe("multi-output-crashed-between-files")
         if name in ("extract_chans", "extract_bands") and sc["params"].get("batch_size", 200) < len(final_by_name) and len(after) > sc["params"]["batch_size"]:
@@ -368,8 +376,7 @@ def execute(sc, ctx) -> None:
                 if fk == "W2":
                     if not fired or not isinstance(raised, SimCrash):
                         raise mkp("crash-swallowed", f"fired={fired} raised={raised!r}")
-                    if at_crash != after:
-                        raise mkp("unwinding-wrote-more", "files changed during exception unwinding")
+                    crash_states(at_crash, after, point, mkp, check_after=False)
                     if spec["nbits"] < 8 or True:
                         fin = final_by_name.get(os.path.basename(rel))
                         if fin is not None and spec["nbits"] < 8:
@@ -388,9 +395,7 @@ def execute(sc, ctx) -> None:
         ctx.probe("W5-points")
         if not fired or not isinstance(raised, SimCrash):
             raise mkp("crash-swallowed", f"fired={fired} raised={raised!r}")
-        if at_crash != after:
-            raise mkp("unwinding-wrote-more", "files changed during exception unwinding")
-        survivors_ok(after, point, mkp)
+        crash_states(at_crash, after, point, mkp)
 
     # ---------------- (3) every byte-length truncation of every final file at or after the header
     for base, fin in sorted(final_by_name.items()):
